@@ -114,6 +114,10 @@ var alphabet = []cmdSpec{
 	{name: "MOVE", wire: "MOVE 1 box2", calls: []string{"Move"}, states: selOnly, failing: "Move", needs: "move"},
 	{name: "UID MOVE", wire: "UID MOVE 1 box2", calls: []string{"Move"}, states: selOnly, failing: "Move", needs: "move"},
 	{name: "UNKNOWN", wire: "FROBNICATE now", states: nil},
+	// commands that do not exist in the UID form are unknown commands too
+	{name: "UNKNOWN-UID", wire: "UID FROBNICATE 1", states: nil},
+	{name: "UNKNOWN-UID-NOOP", wire: "uid Noop", states: nil},
+	{name: "UNKNOWN-UID-LOGIN", wire: "UID LOGIN user pass", states: nil},
 }
 
 func permitted(c *cmdSpec, s st) bool {
@@ -281,7 +285,27 @@ func (r *run) sequence(cmds []int, fails []int) {
 		cur := &hist[len(hist)-1]
 		r.triple[fmt.Sprintf("%s|%s|%s", state, spec.name, failM)] = true
 
-		raw.SendStr(tag + " " + spec.wire + "\r\n")
+		wire := spec.wire
+		if i%3 == 1 {
+			// command names are case-insensitive: every third command is spelled in lower or mixed case
+			f := strings.SplitN(wire, " ", 3)
+			low := func(w string, mixed bool) string {
+				b := []byte(w)
+				for k := range b {
+					if b[k] >= 'A' && b[k] <= 'Z' && (!mixed || k%2 == 1) {
+						b[k] += 32
+					}
+				}
+				return string(b)
+			}
+			up := strings.ToUpper(f[0])
+			f[0] = low(f[0], i%2 == 0)
+			if up == "UID" && len(f) > 1 {
+				f[1] = low(f[1], i%2 == 1)
+			}
+			wire = strings.Join(f, " ")
+		}
+		raw.SendStr(tag + " " + wire + "\r\n")
 		out, cond := raw.Sync()
 		// continuation-based commands
 		if strings.HasPrefix(spec.name, "AUTHENTICATE") || spec.name == "IDLE" {
@@ -326,7 +350,7 @@ func (r *run) sequence(cmds []int, fails []int) {
 		next := state
 		wantClose := false
 		switch {
-		case spec.name == "UNKNOWN":
+		case strings.HasPrefix(spec.name, "UNKNOWN"):
 			wantStatus["BAD"] = true
 			if state == NotAuth {
 				wantClose = true
@@ -537,8 +561,39 @@ func summarize(lines []kit.RespLine) string {
 	return strings.Join(p, "; ")
 }
 
+// pipelinedStartTLS: credentials that arrive in plaintext in the same segment as STARTTLS must
+// never be accepted, even though the connection object is a TLS connection by the time the
+// server looks at them (they can only be consumed by the handshake, which then fails).
+func pipelinedStartTLS(w *hx.W) {
+	ir := base64.StdEncoding.EncodeToString([]byte("\x00user\x00pass"))
+	for _, kind := range []kit.SessKind{kit.SessFull, kit.SessSASLk, kit.SessPlain} {
+		for _, follow := range []string{"l1 LOGIN user pass\r\n", "l1 AUTHENTICATE PLAIN " + ir + "\r\n", "l1 login user pass\r\nl2 SELECT box\r\n", "l1 LOGIN {4+}\r\nuser pass\r\n"} {
+			srv := kit.NewServer(kit.ServerCfg{Caps: capsOf("rev1", kind), InsecureAuth: false, TLS: true, Kind: kind})
+			srv.B.Handler = handler
+			srv.B.Mechs = []string{"PLAIN"}
+			raw := srv.Dial()
+			raw.Sync()
+			base := srv.B.NCalls()
+			raw.SendStr("s1 STARTTLS\r\n" + follow)
+			out, _ := raw.Sync()
+			for _, c := range srv.B.CallsSince(base) {
+				if c.Method == "Login" || c.Method == "Authenticate" || c.Method == "Select" {
+					w.Violation("credentials-over-plaintext@STARTTLS-pipelined/"+c.Method, fmt.Sprintf("Session.%s was called for %q sent in plaintext in the same segment as STARTTLS (InsecureAuth=false, session kind %d); server output %q", c.Method, follow, kind, out), nil)
+				}
+			}
+			raw.Close()
+			srv.Close()
+			w.CaseStr(fmt.Sprintf("pipelined-starttls|%d|%s", kind, follow))
+			w.Class("pipelined-starttls")
+		}
+	}
+}
+
 func body(w *hx.W) {
 	kit.SyncTimeout = 60 * time.Second
+	if w.Shard == 0 {
+		pipelinedStartTLS(w)
+	}
 	var cfgs []config
 	for _, tr := range []string{"plain", "tls", "starttls"} {
 		for _, ins := range []bool{false, true} {
